@@ -78,6 +78,15 @@ func Verify(stump Stump, delHashes []Hash, proof Proof) ([]int, error) {
 			"hashes for those targets", len(proof.Targets), len(delHashes))
 	}
 
+	// An empty hash stands for a deleted subtree. No node that a proof is made of is ever
+	// empty so refuse it. Otherwise a node could be claimed to be at a lower position
+	// than it's at by claiming that its sibling was deleted.
+	for _, proofHash := range proof.Proof {
+		if proofHash == empty {
+			return nil, fmt.Errorf("Verify fail. The proof has an empty hash")
+		}
+	}
+
 	_, rootCandidates, err := calculateHashes(stump.NumLeaves, delHashes, proof)
 	if err != nil {
 		return nil, err
